@@ -405,6 +405,41 @@ theorem length_eq_of_balanced (obs : List (Obs K)) (R : Nat) (h : balancedR (gro
   rw [List.map_congr_left this]
   simp
 
+theorem balancedR_of_all (gs : List (List (Row K))) (R : Nat) (hne : gs ≠ [])
+    (h : ∀ g ∈ gs, g.length = R) : balancedR gs = some R := by
+  cases gs with
+  | nil => exact absurd rfl hne
+  | cons g rest =>
+    have hg : g.length = R := h g (List.mem_cons_self)
+    have hall : rest.all (fun h' => h'.length == g.length) = true := by
+      rw [List.all_eq_true]
+      intro g' hg'
+      have := h g' (List.mem_cons_of_mem _ hg')
+      simp [this, hg]
+    rw [hg] at hall
+    simp only [balancedR, hg, hall, if_true]
+
+/-- acceptance by `np.stack` (equally many rows per condition) does not depend on the order of
+    the observations -/
+theorem balancedR_perm (o1 o2 : List (Obs K)) (h : o1.Perm o2) (R : Nat)
+    (hb : balancedR (groups o1) = some R) : balancedR (groups o2) = some R := by
+  apply balancedR_of_all
+  · have h1 : o1 ≠ [] := by
+      intro h0; subst h0; simp [groups, labels, uniq, balancedR] at hb
+    have h2 : o2 ≠ [] := by
+      intro h0; subst h0; exact h1 (List.perm_nil.mp h)
+    cases o2 with
+    | nil => exact absurd rfl h2
+    | cons o rest => simp [groups, labels, uniq]
+  · intro g hg
+    simp only [groups, List.mem_map] at hg
+    obtain ⟨v, hv, rfl⟩ := hg
+    have hv2 : v ∈ labels o2 := (mem_uniq _ _).mp hv
+    have hv1 : v ∈ uniq (labels o1) := (mem_uniq _ _).mpr ((h.map _).mem_iff.mpr hv2)
+    have hl := balancedR_spec _ R hb (groupRows o1 v) (List.mem_map_of_mem hv1)
+    have hp : (groupRows o1 v).Perm (groupRows o2 v) := (h.filter _).map _
+    rw [← hp.length_eq]; exact hl
+
 theorem traceMean_full_nonneg (rows : List (Row K)) (dof : K) (hdof : 0 < dof) (p : Nat) :
     0 ≤ traceMean (covFullC rows dof) p := by
   unfold traceMean covFullC fullNorm
